@@ -102,7 +102,7 @@ func c18DBOps() []c18Op {
 	var ops []c18Op
 	for i := range c18Names {
 		k := fmt.Sprint(i)
-		for v := 0; v < 5; v++ { // public keys of lengths 32, 0, 64 (overwrite longer / shorter) and two whose base64 text looks like hex
+		for v := 0; v < 6; v++ { // (5: with a private key, so that 0–4 overwrite it with none) public keys of lengths 32, 0, 64 (overwrite longer / shorter) and two whose base64 text looks like hex
 			ops = append(ops, c18Op{Op: "save", Key: k, Val: v})
 		}
 		ops = append(ops, c18Op{Op: "entity", Key: k}, c18Op{Op: "delete-entity", Key: k})
@@ -227,10 +227,10 @@ func c18Play(c *fw.Ctx, layer string, hist []c18Op, dir string) (state string, o
 		es, err := database.Entities()
 		var got, want []string
 		for _, e := range es {
-			got = append(got, e.Name+"="+string(e.PublicKey))
+			got = append(got, e.Name+"="+string(e.PublicKey)+"/"+string(e.PrivateKey))
 		}
 		for _, e := range ents {
-			want = append(want, e.Name+"="+string(e.PublicKey))
+			want = append(want, e.Name+"="+string(e.PublicKey)+"/"+string(e.PrivateKey))
 		}
 		sort.Strings(got)
 		sort.Strings(want)
@@ -277,7 +277,11 @@ func c18Play(c *fw.Ctx, layer string, hist []c18Op, dir string) (state string, o
 			case "save":
 				i := 0
 				fmt.Sscan(op.Key, &i)
-				e := db.NewEntity(c18Names[i], c18Pub(op.Val), nil)
+				var priv []byte
+				if op.Val == 5 {
+					priv = pat(64, 41) // an entity with a private key (what the accessory stores for itself)
+				}
+				e := db.NewEntity(c18Names[i], c18Pub(op.Val), priv)
 				label = fmt.Sprintf("save-pub%d", len(e.PublicKey))
 				if err := database.SaveEntity(e); err != nil {
 					fail("save-error/"+c18NameLabel(e.Name), "SaveEntity fails: "+err.Error())
@@ -411,6 +415,14 @@ func c18Run(c *fw.Ctx) {
 			d = 3
 		}
 		c18Explore(c, "db", c18DBOps(), d)
+		// two names (one of them empty), the three kinds of key material, every history of length 4 (5)
+		var few []c18Op
+		for _, op := range c18DBOps() {
+			if op.Op == "entities" || op.Op == "reopen" || ((op.Key == "0" || op.Key == "1") && (op.Op != "save" || op.Val == 0 || op.Val == 1 || op.Val == 5)) {
+				few = append(few, op)
+			}
+		}
+		c18Explore(c, "db", few, d+2)
 		// two keys that differ only in the case of a letter
 		saved := c18Keys
 		c18Keys = []string{"k1", "K1"}
@@ -452,7 +464,7 @@ func c18Run(c *fw.Ctx) {
 		c18Tree(c, "storage", sops, td, c.Shard-2, parts)
 		var dops []c18Op
 		for _, op := range c18DBOps() {
-			if op.Op == "save" && op.Val >= 3 && op.Key != "0" {
+			if op.Op == "save" && op.Val >= 3 && op.Val != 5 && op.Key != "0" {
 				continue
 			}
 			if op.Key == "0" || op.Key == "5" || op.Key == "7" || op.Key == "9" || op.Op == "entities" || op.Op == "reopen" {
@@ -467,7 +479,7 @@ func init() {
 	fw.Register(&fw.Check{
 		ID:     "C18",
 		Level:  "model_checking",
-		Rule:   "explicit-state breadth-first search over the real file storage and pairing database: alphabet Set(k,v) for 3 keys (thorough 4; one looks like an entity file, one is another key plus .tmp) × 5 values (lengths 0,1,3,6,4096), Get, Delete, KeysWithSuffix × 3 suffixes, reopen; SaveEntity (3 key lengths) / EntityWithName / DeleteEntity / Entities / reopen for 9 entity names (ASCII, empty, non-ASCII, with slash, with colon, 100 arbitrary bytes, invalid UTF-8 ending in 0xfe and in 0xee, a name ending in '.entity'). State = exact directory content (file names and bytes); every operation is executed in every discovered state by replaying the state's shortest history on a fresh directory; after every step all keys, listings and entities are compared with a Go map. Because that merging is sound only if the storage object holds nothing but the path, EVERY history of length 3 (thorough 4) over a reduced alphabet (2 keys × 4 values, get, delete, listing, reopen; 3 entity names) is additionally replayed without merging. distinct_nontrivial = distinct (layer, operation) classes executed Added: the searches repeated in storage directories named 'Lamp [Kitchen]', 'a*b', 'what?', '[a-', 'back\\slash', '{x,y}', 'per%cent', ' lead and trail '; writes cut short by the operating system (RLIMIT_FSIZE) for Set and SaveEntity — success only with the complete value, failure leaves the previous one; a storage BFS over two keys that differ only in letter case; entity names \"A\" (next to \"a\") and a 124-byte name. Plus, in a subprocess built with a scheduling point before EVERY statement of hc's packages (textual insertion through go build -overlay): every interleaving with at most 1 (thorough 2) preemptions of pairs of operations on disjoint objects — and, where the property is about served requests, of pairs of handlers on two verified connections of one accessory touching different characteristics — each side must observe exactly what it observes when the two run one after the other (module-level mutable state is what makes them differ). Also one key with 8 value shapes (line breaks, blanks, NUL, 0xff at either end, nothing but line breaks) to depth 3, and public keys whose base64 text consists of hexadecimal digits only; what Get returned stays what it was while other keys are read; a key with colons next to its colon-free spelling (the storage drops colons: one key).",
+		Rule:   "explicit-state breadth-first search over the real file storage and pairing database: alphabet Set(k,v) for 3 keys (thorough 4; one looks like an entity file, one is another key plus .tmp) × 5 values (lengths 0,1,3,6,4096), Get, Delete, KeysWithSuffix × 3 suffixes, reopen; SaveEntity (3 key lengths) / EntityWithName / DeleteEntity / Entities / reopen for 9 entity names (ASCII, empty, non-ASCII, with slash, with colon, 100 arbitrary bytes, invalid UTF-8 ending in 0xfe and in 0xee, a name ending in '.entity'). State = exact directory content (file names and bytes); every operation is executed in every discovered state by replaying the state's shortest history on a fresh directory; after every step all keys, listings and entities are compared with a Go map. Because that merging is sound only if the storage object holds nothing but the path, EVERY history of length 3 (thorough 4) over a reduced alphabet (2 keys × 4 values, get, delete, listing, reopen; 3 entity names) is additionally replayed without merging. distinct_nontrivial = distinct (layer, operation) classes executed Added: the searches repeated in storage directories named 'Lamp [Kitchen]', 'a*b', 'what?', '[a-', 'back\\slash', '{x,y}', 'per%cent', ' lead and trail '; writes cut short by the operating system (RLIMIT_FSIZE) for Set and SaveEntity — success only with the complete value, failure leaves the previous one; a storage BFS over two keys that differ only in letter case; entity names \"A\" (next to \"a\") and a 124-byte name. Plus, in a subprocess built with a scheduling point before EVERY statement of hc's packages (textual insertion through go build -overlay): every interleaving with at most 1 (thorough 2) preemptions of pairs of operations on disjoint objects — and, where the property is about served requests, of pairs of handlers on two verified connections of one accessory touching different characteristics — each side must observe exactly what it observes when the two run one after the other (module-level mutable state is what makes them differ). Also one key with 8 value shapes (line breaks, blanks, NUL, 0xff at either end, nothing but line breaks) to depth 3, and public keys whose base64 text consists of hexadecimal digits only; entities with a private key that later saves replace by none; two names (one empty) to depth 4 (thorough 5) with reopen; what Get returned stays what it was while other keys are read; a key with colons next to its colon-free spelling (the storage drops colons: one key).",
 		Shards: func(string) int { return 16 },
 		Run:    c18Run,
 		Replay: func(c *fw.Ctx, raw json.RawMessage) {
